@@ -57,7 +57,7 @@ type Result struct {
 	Extra      map[string]string `json:"extra,omitempty"`
 }
 
-const e1Prelude = "func rec(tag int, v ...interface{}) {}\nfunc pcl(r interface{}) string { return \"\" }\nfunc hk() {}\nfunc nc(v interface{}) interface{} { return v }\n"
+const e1Prelude = "func rec(tag int, v ...interface{}) {}\nfunc pcl(r interface{}) string { return \"\" }\nfunc hk() {}\nfunc nc(v interface{}) interface{} { return v }\nfunc par(n int, f func(int) int) int { return 0 }\n"
 
 func (p *Prog) plainSrc() string { return strings.ReplaceAll(p.Src, "§", "") }
 
@@ -138,16 +138,42 @@ import (
 	"encoding/json"
 	"os"
 	"strconv"
+	"sync"
 
 	"ref/tr"
 )
 
 var cur *tr.Trace
 
-func rec(tag int, v ...interface{}) { cur.Rec(tag, v...) }
+var recMu sync.Mutex
+
+func rec(tag int, v ...interface{}) { recMu.Lock(); cur.Rec(tag, v...); recMu.Unlock() }
 func pcl(r interface{}) string     { return tr.PanicClass(r) }
 func hk()                          { cur.Hooks++ }
 func nc(v interface{}) interface{} { return tr.NoCap{V: v} }
+
+// par invokes a callback from n goroutines concurrently and returns the sum of its results.
+func par(n int, f func(int) int) int {
+	res := make([]int, n)
+	done := make(chan bool)
+	start := make(chan struct{})
+	for i := 0; i < n; i++ {
+		go func(i int) {
+			<-start
+			res[i] = f(i)
+			done <- true
+		}(i)
+	}
+	close(start)
+	for i := 0; i < n; i++ {
+		<-done
+	}
+	sum := 0
+	for _, x := range res {
+		sum += x
+	}
+	return sum
+}
 
 type result struct {
 	ID     string   ` + "`json:\"id\"`" + `
@@ -835,4 +861,63 @@ func fragValidImports(frag string, imports []string) bool {
 	}}
 	conf.Check("p", fset, []*ast.File{f}, nil)
 	return ok
+}
+
+// ---------------------------------------------------------------- race-detector runs
+
+type raceReport struct {
+	Text    string
+	Frames  []string // gomacro frames (file:line) of the racing accesses, outermost last
+	Key     string
+	Gomacro bool
+}
+
+var raceFrameRe = regexp.MustCompile(`(/repo/[^\s:]+\.go):(\d+)`)
+
+// raceParse reads the GORACE log files with the given prefix and returns de-duplicated reports.
+func raceParse(prefix string) (reports []raceReport, blocks int) {
+	files, _ := filepath.Glob(prefix + ".*")
+	seen := map[string]bool{}
+	for _, f := range files {
+		data, err := os.ReadFile(f)
+		os.Remove(f)
+		if err != nil {
+			continue
+		}
+		for _, blk := range strings.Split(string(data), "==================") {
+			if !strings.Contains(blk, "WARNING: DATA RACE") {
+				continue
+			}
+			blocks++
+			var rep raceReport
+			rep.Text = fw.Clip(blk, 4000)
+			// the two accesses: first frame under "Write at"/"Read at" and under "Previous write/read at"
+			parts := regexp.MustCompile(`(?m)^(Write|Read|Previous write|Previous read|Previous atomic [a-z]+|Atomic [a-z]+) at`).Split(blk, -1)
+			var tops []string
+			for _, part := range parts[1:] {
+				if i := strings.Index(part, "\n\n"); i >= 0 {
+					part = part[:i]
+				}
+				if m := raceFrameRe.FindStringSubmatch(part); m != nil {
+					tops = append(tops, strings.TrimPrefix(m[1], "/repo/")+":"+m[2])
+					rep.Gomacro = true
+				}
+			}
+			sort.Strings(tops)
+			rep.Frames = tops
+			rep.Key = strings.Join(tops, " <-> ")
+			if rep.Key == "" {
+				rep.Key = "no-gomacro-frame:" + fw.Hash(blk)
+			}
+			if !seen[rep.Key] {
+				seen[rep.Key] = true
+				reports = append(reports, rep)
+			}
+		}
+	}
+	return
+}
+
+func raceBin() string {
+	return filepath.Join(filepath.Dir(selfBin()), "gmverif-race")
 }
